@@ -74,18 +74,20 @@ func parseTask(tok string) taskSpec {
 	return ts
 }
 
-var handlerErrs = map[int]error{}
+// handler errors E1..E31, created once (handlers run concurrently)
+var handlerErrs = func() []error {
+	l := make([]error, 32)
+	for i := 1; i < len(l); i++ {
+		l[i] = fmt.Errorf("E%d", i)
+	}
+	return l
+}()
 
 func herr(k int) error {
-	if k == 0 {
+	if k <= 0 {
 		return nil
 	}
-	e, ok := handlerErrs[k]
-	if !ok {
-		e = fmt.Errorf("E%d", k)
-		handlerErrs[k] = e
-	}
-	return e
+	return handlerErrs[k%len(handlerErrs)]
 }
 
 func showErr(e error) string {
@@ -210,7 +212,7 @@ func runAnts(toks []string) string {
 			return v, e
 		}
 		wg.Add(1)
-		go func() {
+		go func(pool ants.Pool) {
 			defer wg.Done()
 			time.Sleep(sp.send - time.Since(base))
 			opts := []ants.TaskOption{ants.WithTimeout(sp.timeout), ants.WithRetry(sp.retry), ants.WithDiscardOnBusy(sp.discard)}
@@ -224,7 +226,7 @@ func runAnts(toks []string) string {
 			logf(func() string { tasks[k] = t; return fmt.Sprintf("SR,%d,%d", k, now()) })
 			v, e := t.Get2()
 			logf(func() string { returned[k] = true; return fmt.Sprintf("G,%d,%d,%s,%s", k, now(), showVal(v), showErr(e)) })
-		}()
+		}(pool)
 	}
 	allDone := make(chan struct{})
 	go func() { wg.Wait(); close(allDone) }()
